@@ -227,7 +227,11 @@ def run_history(case, scratch):
       if kind == 'rerun':
         faults = []
       prog = program_at(case, version, dbpath)
-      R = R_of(version)
+      try:
+        R = R_of(version)
+      except OverflowError:
+        info['discard'] = 'reference relation too large'
+        return [], info
       text = gen.render(prog)
       before = sqlworld.snapshot_file(dbpath)
       if before is None:
